@@ -38,6 +38,7 @@ STARTS = {
     "halfday_plus": ("jd", 2459581.0, -0.5 + 3e-10),    # jd2 within 1e-9 of -1/2 day
     "mjd_int": ("jd", 2459000.5, 0.0),
     "tai": ("tai_mjd", 59000.0, 0.7123456789),          # a start time kept on the TAI scale, MJD format
+    "unix_loc": ("unix", 1600000000.0, 0.123456789),    # unix format, with an observatory location attached
 }
 
 
@@ -52,6 +53,9 @@ def start(name):
         return None
     if s[0] == "isot":
         return Time(s[1], format="isot", scale="utc", precision=9)
+    if s[0] == "unix":
+        from astropy.coordinates import EarthLocation
+        return Time(s[1], s[2], format="unix", scale="utc", precision=9, location=EarthLocation.from_geodetic(-79.8 * u.deg, 38.4 * u.deg))
     if s[0] == "tai_mjd":
         return Time(s[1], s[2], format="mjd", scale="tai", precision=9)
     return Time(s[1], s[2], format="jd", scale="utc", precision=9)
@@ -101,6 +105,7 @@ LAYOUTS_ENABLED = True
 
 def new_case():
     _LAYOUT[0] = 0
+    _PROV[0] = 0
 
 
 def _layout(data):
@@ -118,6 +123,28 @@ def _layout(data):
     return data
 
 
+# Provenance of the object handed to a check rotates as well: as constructed, after a pickle round trip, after
+# copy.deepcopy, after like().  All four must be indistinguishable to every operation.
+PROVENANCE_ENABLED = True
+_PROV = [0]
+
+
+def _provenance(z):
+    if not PROVENANCE_ENABLED:
+        return z
+    k = _PROV[0] % 4
+    _PROV[0] += 1
+    if k == 1:
+        import pickle
+        return pickle.loads(pickle.dumps(z))
+    if k == 2:
+        import copy
+        return copy.deepcopy(z)
+    if k == 3:
+        return type(z).like(z)
+    return z
+
+
 def make(cls, data, *, rate_name="1Hz", start_name="none", fc=400 * u.MHz, chan_bw=None,
          align="center", pol_type="linear", meta=None, sample_rate=None, start_time="use_name"):
     sr = rate(rate_name) if sample_rate is None else sample_rate
@@ -133,7 +160,7 @@ def make(cls, data, *, rate_name="1Hz", start_name="none", fc=400 * u.MHz, chan_
         kw["chan_bw"] = sr if chan_bw is None else chan_bw
     if cls == "DualPolarizationSignal":
         kw["pol_type"] = pol_type
-    return C(_layout(data), **kw)
+    return _provenance(C(_layout(data), **kw))
 
 
 def make_encoded(cls, L, *, nchan=2, extra=(), dtype=None, **kw):
